@@ -124,6 +124,7 @@ type Enc struct {
 	strOrder  []string
 	callsNoReturn bool // the function calls a noreturn callee (os.Exit): its own returns may legitimately be unreachable
 	tidsUsed  map[int]bool
+	rangeStart map[*ssa.Range]Term // key set of the map at the start of each map iteration
 	ifacesUsed map[string]*types.Interface
 	vals      map[ssa.Value]Val
 	pre       *State
@@ -162,7 +163,7 @@ type Enc struct {
 
 func newEnc(P *Prog, fn *ssa.Function) *Enc {
 	e := &Enc{P: P, fn: fn, key: funcKey(fn), decls: newDecls(), compSort: map[string]string{}, strConsts: map[string]Term{},
-		tidsUsed: map[int]bool{}, ifacesUsed: map[string]*types.Interface{}, vals: map[ssa.Value]Val{}, private: map[*ssa.Alloc]bool{}, allocByName: map[string][]*ssa.Alloc{},
+		tidsUsed: map[int]bool{}, rangeStart: map[*ssa.Range]Term{}, ifacesUsed: map[string]*types.Interface{}, vals: map[ssa.Value]Val{}, private: map[*ssa.Alloc]bool{}, allocByName: map[string][]*ssa.Alloc{},
 		oblCount: map[string]int{}, loops: map[*ssa.BasicBlock]*loopInfo{}, edgeOut: map[[2]int]*State{},
 		paramVals: map[string]Val{}, paramTypes: map[string]types.Type{}, curBlk: -1}
 	e.c = P.Spec.Contracts[e.key]
